@@ -485,9 +485,13 @@ def compile_table(ctx, rule_key, rule_pass):
             break
     if rule_pass is None:
         return
-    compiled = Obj(_cls='css_match.SoupSieve', _name='ALREADY_COMPILED', pattern='p', selectors=Obj(_name='SELECTORS'), namespaces=None, custom=None,
-                   flags=0)
-    for ns, cs, flags in itertools.product((None, {}, {'p': 'u'}), (None, {}, {':--x': 'y'}), (0, 1)):
+    plain = Obj(_cls='css_match.SoupSieve', _name='ALREADY_COMPILED', pattern='p', selectors=Obj(_name='SELECTORS'), namespaces=None, custom=None,
+                flags=0)
+    # a compiled object that itself carries flags and maps: an argument is "extra" also when it repeats what the object carries
+    loaded = Obj(_cls='css_match.SoupSieve', _name='ALREADY_COMPILED_WITH_FLAGS', pattern='p', selectors=Obj(_name='SELECTORS'),
+                 namespaces={'p': 'u'}, custom={':--x': 'y'}, flags=1)
+    for compiled, (ns, cs, flags) in [(plain, c_) for c_ in itertools.product((None, {}, {'p': 'u'}), (None, {}, {':--x': 'y'}), (0, 1))] + \
+            [(loaded, c_) for c_ in ((None, None, 0), (None, None, 1), ({'p': 'u'}, None, 0), (None, {':--x': 'y'}, 0), ({'p': 'u'}, {':--x': 'y'}, 1), (None, None, 3))]:
         stubs = {'isinstance': lambda v, c, _c=compiled: v is _c, 'cp._cached_css_compile': lambda *a, **k: Obj(_name='RECOMPILED'),
                  'css_parser._cached_css_compile': lambda *a, **k: Obj(_name='RECOMPILED'),
                  'ct.Namespaces': lambda a: Obj(_name='NS'), 'ct.CustomSelectors': lambda a: Obj(_name='CS')}
@@ -501,7 +505,7 @@ def compile_table(ctx, rule_key, rule_pass):
         extra = ns is not None or cs is not None or bool(flags)
         exp = 'raises ValueError' if extra else 'returns the same object'
         rule_pass.instance({'compile(compiled, ...)': {'namespaces': ns, 'custom': cs, 'flags': flags}, 'outcome': outcome, 'expected': exp},
-                           key=f'pt|{ns}|{cs}|{flags}', sample_cap=3)
+                           key=f'pt|{compiled.get("flags")}|{ns}|{cs}|{flags}', sample_cap=3)
         rule_pass.obligation(outcome == exp)
         if outcome != exp:
             rule_pass.violation(f'__init__.compile pass-through {ns!r}/{cs!r}/{flags}', imod.where(cfn),
